@@ -95,7 +95,7 @@ def main(tier, replay=None, prop=PROP, rep=None):
         with open(replay) as f:
             cases = [json.load(f)["case"]["case"]]
     else:
-        n = 64 if tier == "quick" else 2000
+        n = 64 if tier == "quick" else (2000 if prop == PROP else 300)
         hs = gen_histories(rep, rd, n, only_hash=prop == "C19")
         cases = [{"id": i + 1, "hist": h["hist"], "focus": h["focus"], "mode": h.get("mode", ""), "seed": sd} for i, h in enumerate(hs)]
     traces = family.pmap(run_case, cases, chunksize=1)
